@@ -61,6 +61,17 @@ Theorem C20_whole_call_with_overwrite :
   forall c k, S' c k = spec_db 0 cols srcs S S c k /\ D' c k = None.
 Proof. exact driver_overwrite_mode. Qed.
 
+(* the two theorems above leave the source [S] and its enumeration [srcs] unrelated; with S the database that [srcs]
+   enumerates and well-formed source columns (no entry with count 0, count 1 where the column does not count) EVERY column
+   of the call - re-populated or copied - ends with exactly the source's keys, values and counts *)
+Theorem C20_every_column_holds_the_source :
+  forall n cols srcs S' D', all_distinct srcs ->
+  (forall i, (i < length cols)%nat -> wf_src (cfg_of_flags (m_sf (nth i cols mcol0))) (nth i srcs [])) ->
+  migrate_driver n cols (length cols) false srcs (src_db srcs) = MgOk S' D' ->
+  forall c k, c < N.of_nat (length cols) ->
+  D' c k = migrated_col (nth (N.to_nat c) cols mcol0) (nth (N.to_nat c) srcs []) k.
+Proof. exact whole_call_uniform. Qed.
+
 (* [spec_db] read column by column *)
 Theorem C20_result_column_by_column : forall cols c0 srcs S base c,
   spec_db c0 cols srcs S base c =
@@ -104,6 +115,7 @@ Proof. vm_compute. repeat split; reflexivity. Qed.
 Print Assumptions C20_content_preserved.
 Print Assumptions C20_whole_call_without_overwrite.
 Print Assumptions C20_whole_call_with_overwrite.
+Print Assumptions C20_every_column_holds_the_source.
 Print Assumptions C20_result_column_by_column.
 Print Assumptions C20_batch_boundaries_are_invisible.
 Print Assumptions C20_refused_iff.
